@@ -13,6 +13,54 @@ MB = 'libcnb::layer_env::ModificationBehavior'
 JOIN = ('std::path::Path::join', 'std::path::PathBuf::join')
 
 
+INSERT = 'libcnb::layer_env::LayerEnvDelta::insert'
+DELIM_FOR = 'libcnb::layer_env::LayerEnvDelta::delimiter_for'
+_resolved_for = None
+
+
+def resolve_roles(prog, sl):
+    """The public anchors are LayerEnv::{write_to_layer_dir, read_from_layer_dir, apply}; the private per-directory
+    writer / reader, the per-delta apply, the delta insert and the delimiter lookup are *discovered* from them through
+    the call graph (so renaming or moving those helpers does not disturb the rules):
+      W_DIR     = the workspace function that write_to_layer_dir calls with a field of self as receiver
+      R_DIR     = the workspace function whose result read_from_layer_dir stores into a field of the result
+      DAPPLY    = the workspace function the fold / loop in apply calls with (delta, env)
+      INSERT    = the workspace function R_DIR calls with four arguments on the delta it builds
+      DELIM_FOR = the workspace function DAPPLY calls with (self, name) whose result is pushed"""
+    global W_DIR, R_DIR, DAPPLY, INSERT, DELIM_FOR, _resolved_for
+    if _resolved_for is prog:
+        return
+    _resolved_for = prog
+    LED = 'libcnb::layer_env::LayerEnvDelta'
+    w = prog.fns.get(W_LAYER)
+    if w is not None:
+        c0 = [c.name for c in w.calls if c.name in prog.fns and c.args and self_field(w, sl.operand(w, c.args[0])) is not None
+              and prog.fns[c.name].crate == 'libcnb']
+        if len(set(c0)) == 1:
+            W_DIR = c0[0]
+    r = prog.fns.get(R_LAYER)
+    if r is not None:
+        c0 = [c.name for g in [r] + prog.closures_of(r) for c in g.calls if c.name in prog.fns and (c.dty or '').startswith('std::result::Result<' + LED)]
+        if len(set(c0)) == 1:
+            R_DIR = c0[0]
+    a = prog.fns.get(APPLY)
+    if a is not None:
+        c0 = [c.name for g in [a] + prog.closures_of(a) for c in g.calls if c.name in prog.fns and c.dty == 'libcnb::env::Env' and len(c.args) == 2
+              and prog.fns[c.name].self_head == LED]
+        if len(set(c0)) == 1:
+            DAPPLY = c0[0]
+    h = prog.fns.get(R_DIR)
+    if h is not None:
+        c0 = [c.name for c in h.calls if c.name in prog.fns and len(c.args) == 4 and prog.fns[c.name].self_head == LED]
+        if len(set(c0)) == 1:
+            INSERT = c0[0]
+    d = prog.fns.get(DAPPLY)
+    if d is not None:
+        c0 = [c.name for c in d.calls if c.name in prog.fns and len(c.args) == 2 and prog.fns[c.name].self_head == LED and (c.dty or '') == 'std::ffi::OsString']
+        if len(set(c0)) == 1:
+            DELIM_FOR = c0[0]
+
+
 def comps(v, is_root):
     """components of a path value below the root: join(join(root,'a'), x) -> ('a', x)"""
     v = strip(v)
@@ -52,6 +100,7 @@ def loop_element(v):
 
 def writer_scope_table(prog, sl):
     """{scope: (components...)} from the per-scope writes in write_to_layer_dir, plus call list"""
+    resolve_roles(prog, sl)
     f = prog.fn(W_LAYER)
     root = param_pred(f, 1)
     table = {}
@@ -85,6 +134,7 @@ def writer_scope_table(prog, sl):
 
 def reader_scope_table(prog, sl):
     """{scope: (components...)} from where read_from_layer_dir stores the result of each per-dir read"""
+    resolve_roles(prog, sl)
     g = prog.fn(R_LAYER)
     root = param_pred(g, 0)
     table = {}
@@ -145,6 +195,7 @@ def writer_suffix_table(prog, sl):
     """{Variant: '.suffix'} from the match feeding OsString::push in write_to_env_dir.
     info['name_parts']: the symbolic concatenation that forms the file name: base value + pushed values in
     program order, each rendered as NAME (the map key's variable name), SUFFIX (the per-behaviour constant) or text"""
+    resolve_roles(prog, sl)
     f = prog.fn(W_DIR)
     rows = {}
     push = [c for c in f.calls if c.name == 'std::ffi::OsString::push']
@@ -188,8 +239,9 @@ def writer_suffix_table(prog, sl):
 
 def reader_suffix_table(prog, sl):
     """{'append': Variant, ..., None: Variant for 'no extension', '*': Variant|None for unknown}"""
+    resolve_roles(prog, sl)
     h = prog.fn(R_DIR)
-    ins = [c for c in h.calls if c.name == 'libcnb::layer_env::LayerEnvDelta::insert']
+    ins = [c for c in h.calls if c.name == INSERT]
     table = {}
     info = {'insert_calls': len(ins)}
     if len(ins) != 1:
@@ -245,6 +297,7 @@ SCOPE = 'libcnb::layer_env::Scope'
 
 def apply_scope_table(prog, sl):
     """{ScopeVariant: [delta field, ...]} in application order, from LayerEnv::apply"""
+    resolve_roles(prog, sl)
     from .lib.guards import conditions
     f = prog.fn(APPLY)
     table = {}
@@ -296,6 +349,7 @@ def apply_scope_table(prog, sl):
 
 def behaviour_index_table(prog, sl):
     """{Variant: rank} from the constant table inside Ord for ModificationBehavior"""
+    resolve_roles(prog, sl)
     cands = [f for f in prog.find(r'^<libcnb::layer_env::ModificationBehavior as std::cmp::Ord>::cmp::')]
     table = {}
     fn = None
